@@ -43,6 +43,10 @@ pub const CT_CLASSES: &[Option<&[u8]>] = &[
     Some(b"\xe9application/json"),
     Some(b"application/\tjson"),
     Some(b"application/JSON\t"),
+    Some(b"application/js\xc3\xa9n"),
+    Some(b"application/jso\xc3\xa9"),
+    Some(b"text/plain; v=\"\xc3\xa9\""),
+    Some(b"application/json; \xe2\x82\xac"),
 ];
 
 pub fn body_classes() -> Vec<(&'static str, Vec<u8>)> {
@@ -164,7 +168,18 @@ impl CaseInput for RespCase {
             family,
             kind: r.below(4) as u8,
             status,
-            content_type: r.pick(CT_CLASSES).map(|c| c.to_vec()),
+            content_type: {
+                let mut ct = r.pick(CT_CLASSES).map(|c| c.to_vec());
+                // a non-ASCII byte (or a multi-byte character) at an arbitrary offset of the header value
+                if r.chance(1, 8) {
+                    let mut v = ct.unwrap_or_else(|| b"application/json; charset=utf-8".to_vec());
+                    let at = r.below(v.len() as u64 + 1) as usize;
+                    let ins: &[u8] = *r.pick(&[&b"\xc3\xa9"[..], &b"\xff"[..], &b"\xe2\x82\xac"[..], &b"\xf0\x9f\x98\x80"[..]]);
+                    v.splice(at..at, ins.iter().copied());
+                    ct = Some(v);
+                }
+                ct
+            },
             body,
             transport_error: r.chance(1, 25),
             bad_uri: r.chance(1, 40),
